@@ -77,6 +77,21 @@ func candidates(h c09.HandlerDesc) []string {
 		set[a[0]] = true
 		set[a[1]] = true
 	}
+	// near misses of a registered name and of an alias: the same letters with a control or format character
+	// somewhere — different strings, hence different methods
+	near := []string{c09.OracleFormatter(h.Fmt)("A", "Foo")}
+	if len(h.Aliases) > 0 {
+		near = append(near, h.Aliases[0][0])
+	}
+	for _, nm := range near {
+		if nm == "" {
+			continue
+		}
+		k := len(nm) / 2
+		for _, v := range []string{nm + "\n", nm[:k] + "\x00" + nm[k:], "\ufeff" + nm, nm + "\u200b", nm[:k] + "\a" + nm[k:], " " + nm} {
+			set[v] = true
+		}
+	}
 	var out []string
 	for s := range set {
 		out = append(out, s)
@@ -98,10 +113,11 @@ type paramVariant struct {
 }
 
 var variants = []paramVariant{
-	{`[%d]`, "one-int"}, {`[]`, "empty"}, {`[%d,1]`, "two"}, {`["s"]`, "one-str"}, {``, "absent"}, {`null`, "null"},
+	// (a request without a params member right after one that was accepted: nothing of the earlier request may be reused)
+	{`[%d]`, "one-int"}, {``, "absent"}, {`[]`, "empty"}, {`[%d,1]`, "two"}, {`["s"]`, "one-str"}, {`null`, "null"},
 	{`{"a":1}`, "object"}, {`[null]`, "one-null"}, {`[1.5]`, "one-frac"}, {`[%d,2,3]`, "three"},
 	// several positional params: every position mismatched on its own, and two at once
-	{`["s",%d,true]`, "three-fit"}, {`[5,%d,true]`, "three-bad-first"}, {`["s","x",true]`, "three-bad-middle"},
+	{`["s",%d,true]`, "three-fit"}, {``, "absent-after-three"}, {`[5,%d,true]`, "three-bad-first"}, {`["s","x",true]`, "three-bad-middle"},
 	{`["s",%d,"no"]`, "three-bad-last"}, {`[5,"x",true]`, "three-bad-two"}, {`[null,%d,true]`, "three-null-first"},
 }
 
